@@ -1301,7 +1301,7 @@ func litBig(s string) (uint64, bool) {
 }
 
 func isPow2m1(n uint64) bool { return n != 0 && (n&(n+1)) == 0 }
-func addOne(n uint64) string  { return fmt.Sprint(n + 1) }
+func addOne(n uint64) string { return fmt.Sprint(n + 1) }
 
 func (g *Gen) bvBinop(st *State, op token.Token, a, b string, xt, rt types.Type) Val {
 	_, uns, _ := intBits(xt)
